@@ -61,7 +61,7 @@ _UNITS = [1.0, 0.0625, 0.37, 13.0, 1e-3, 250.0]
 
 def _nodes(max_nodes=12):
   # a handful of node counts only: every count costs one XLA compilation (seconds) of the 7 routines
-  return _nodes_of(st.sampled_from([n for n in (2, 3, 4, 5, 7, 12) if n <= max_nodes]))
+  return _nodes_of(st.sampled_from([n for n in (5, 3, 4, 7, 12, 2) if n <= max_nodes]))
 
 
 @st.composite
@@ -617,9 +617,9 @@ def run_hybrid(case):
 
 @st.composite
 def _vi3d_case(draw):
-  nx, ny = draw(st.sampled_from([[1, 1], [2, 3], [2, 3]]))   # few distinct shapes: every shape is a fresh compile
+  nx, ny = draw(st.sampled_from([[2, 3], [3, 2], [1, 1]]))   # few distinct shapes: every shape is a fresh compile
   return {'nodes': draw(_nodes_of(st.sampled_from([2, 3, 6]))), 'n_target': draw(st.sampled_from([1, 4])), 'nx': nx,
-          'ny': ny, 'x3d': draw(st.booleans()), 'xp3d': draw(st.booleans()),
+          'ny': ny, 'x3d': draw(st.sampled_from([True, False])), 'xp3d': draw(st.sampled_from([True, False])),
           'shift': draw(st.sampled_from([0.0, 0.2, 0.45])), 'seed': draw(st.integers(0, 2 ** 16))}
 
 
@@ -772,10 +772,10 @@ def _hgrid(draw):
 
 @st.composite
 def _hregrid_case(draw):
-  s = draw(_hgrid())
-  equal = draw(st.sampled_from([False, False, False, True]))
-  return {'src': s, 'tgt': dict(s) if equal else draw(_hgrid()), 'batch': draw(st.sampled_from([0, 0, 2])),
-          'seed': draw(st.integers(0, 2 ** 16))}
+  s, t = draw(_hgrid()), draw(_hgrid())
+  if t == s:     # Hypothesis likes to repeat values: make the pair different by construction (the identity between
+    t['nlon'] += 1   # equal grids is checked in every case on the (src, src) pair)
+  return {'src': s, 'tgt': t, 'batch': draw(st.sampled_from([0, 0, 2])), 'seed': draw(st.integers(0, 2 ** 16))}
 
 
 def _hbuild(g):
@@ -790,11 +790,10 @@ def run_hregrid(case):
   rng = np.random.default_rng(case['seed'])
   lead = (case['batch'],) if case['batch'] else ()
   f = rng.standard_normal(lead + s.nodal_shape)
-  equal = case['src'] == case['tgt']
-  out = Outcome(labels=[f"src={case['src']['spacing']}", f"tgt={case['tgt']['spacing']}", 'equal_grids' if equal else 'different_grids',
+  out = Outcome(labels=[f"src={case['src']['spacing']}", f"tgt={case['tgt']['spacing']}",
                         'offset' if case['src']['offset'] != case['tgt']['offset'] else 'same_offset',
                         'finer' if t.nodal_shape[0] * t.nodal_shape[1] > s.nodal_shape[0] * s.nodal_shape[1] else 'coarser_or_same'],
-                nontrivial=not equal, units=2 * int(np.prod(t.nodal_shape)))
+                nontrivial=(min(s.nodal_shape) >= 3), units=2 * int(np.prod(t.nodal_shape)) + 2 * int(np.prod(s.nodal_shape)))
   slon, slat = np.asarray(s.longitudes, dtype=np.float64), np.asarray(s.latitudes, dtype=np.float64)
   tlon, tlat = np.asarray(t.longitudes, dtype=np.float64), np.asarray(t.latitudes, dtype=np.float64)
   # one batched call per regridder (each call of a new grid pair / shape is a fresh compilation):
@@ -819,9 +818,10 @@ def run_hregrid(case):
     for k in range(nf):
       if o[k].max() > f2[k].max() + TIGHT or o[k].min() < f2[k].min() - TIGHT:
         return out.fail(what='output outside the range of the input field', regridder=name, batch_index=k)
-    if equal and np.max(np.abs(full - stack)) > (0.0 if name == 'NearestRegridder' else 1e-12):
+    same = np.asarray(R(s, _hbuild(case['src']))(stack), dtype=np.float64)     # equal (not identical) grid objects
+    if same.shape != stack.shape or np.isnan(same).any() or np.max(np.abs(same - stack)) > (0.0 if name == 'NearestRegridder' else 1e-12):
       return out.fail(what='regridding between equal grids is not the identity', regridder=name,
-                      maxdev=float(np.max(np.abs(full - stack))))
+                      maxdev=float(np.max(np.abs(same - stack))) if same.shape == stack.shape else 'shape')
   if lead:   # leading batch axes are handled like independent 2-D fields
     ob = np.asarray(hi.NearestRegridder(s, t)(f))
     if ob.shape != lead + t.nodal_shape or not np.array_equal(ob.reshape((-1,) + t.nodal_shape), res['NearestRegridder'][:nf]):
@@ -854,12 +854,12 @@ def run_hregrid(case):
 
 SUBCHECKS = [
     Subcheck('interp_1d_operator', run_interp1d, strategy=lambda tier: _interp1d_case(),
-             examples={'quick': 400, 'thorough': 20000}, shards={'quick': 2, 'thorough': 12}, weight=3,
+             examples={'quick': 400, 'thorough': 20000}, shards={'quick': 1, 'thorough': 12}, weight=3,
              rule='non-trivial = >= 3 nodes with uneven spacing (all 7 routines x 64 queries x all unit vectors per case)',
              doc='operator matrices of every 1-D routine vs loop reference; source values, affine exactness, bounds, '
                  'constant / linear / n-cell-then-NaN extrapolation'),
     Subcheck('field_wrappers', run_field, strategy=lambda tier: _field_case(tier),
-             examples={'quick': 24, 'thorough': 300}, shards={'quick': 4, 'thorough': 12}, weight=5,
+             examples={'quick': 20, 'thorough': 300}, shards={'quick': 2, 'thorough': 12}, weight=5,
              rule='non-trivial = more than one column and uneven pressure levels',
              doc='interp_pressure_to_sigma / interp_sigma_to_pressure / interp_hybrid_to_sigma / vectorised wrappers == '
                  'per-column loops; affine round trip; untouched leaves'),
@@ -868,21 +868,21 @@ SUBCHECKS = [
              rule='non-trivial = >= 3 pressure levels',
              doc='get_surface_pressure = level where geopotential meets g*orography'),
     Subcheck('hybrid_coordinates', run_hybrid, strategy=lambda tier: _hybrid_case(),
-             examples={'quick': 80, 'thorough': 1500}, shards={'quick': 1, 'thorough': 2},
+             examples={'quick': 50, 'thorough': 600}, shards={'quick': 1, 'thorough': 3},
              rule='every case is non-trivial (bounds, centres, resampled sigma coordinates)',
              doc='HybridCoordinates sigma boundaries / centres / to_approx_sigma_coords incl. ECMWF137 and UFS127'),
     Subcheck('vertical_interp_3d', run_vertical_interp_3d, strategy=lambda tier: _vi3d_case(),
-             examples={'quick': 80, 'thorough': 2000}, shards={'quick': 1, 'thorough': 4},
+             examples={'quick': 50, 'thorough': 800}, shards={'quick': 1, 'thorough': 4},
              rule='non-trivial = several columns and a column-dependent query or node array',
              doc='primitive_equations._vertical_interp (1-D / 3-D query and node arrays) == per-column constant-extrapolation loop'),
     Subcheck('semi_lagrangian_step', run_semi_lagrangian, strategy=lambda tier: _sl_case(),
-             examples={'quick': 30, 'thorough': 400}, shards={'quick': 2, 'thorough': 8}, weight=4,
+             examples={'quick': 24, 'thorough': 400}, shards={'quick': 1, 'thorough': 8}, weight=4,
              rule='non-trivial = non-zero displacement and >= 3 layers',
              doc='zero velocity = identity; constant columns stay constant; range bounded; equals the documented '
                  'piecewise-linear interpolant with constant extrapolation; surface / scalar leaves untouched'),
     Subcheck('horizontal_nearest_bilinear', run_hregrid, strategy=lambda tier: _hregrid_case(),
-             examples={'quick': 40, 'thorough': 600}, shards={'quick': 2, 'thorough': 6},
-             rule='non-trivial = source and target grids differ',
+             examples={'quick': 40, 'thorough': 300}, shards={'quick': 1, 'thorough': 6},
+             rule='non-trivial = source grid has at least 3 x 3 nodes (source and target always differ)',
              doc='Nearest/Bilinear regridders: constants, identity on equal grids, range bounded, nearest-by-haversine, '
                  'affine exactness'),
 ]
